@@ -130,7 +130,11 @@ def metrics_mismatch(data: Any, ref: Dict[str, float]) -> Optional[str]:
     # a float32 standard deviation goes through squared deviations: below sqrt(float32 min normal)
     # ~ 1e-19 it cannot be resolved (an implementation via var().sqrt() legitimately returns 0)
     tiny = abs(s) <= 2e-19 and ref["std_biased"] <= 2e-19
-    if not (tiny or _close(s, ref["std_unbiased"]) or _close(s, ref["std_biased"])):
+    # a float32 std of a (nearly) constant tensor carries the rounding of the mean: an absolute
+    # error of a few float32 ulps of the largest element
+    floor = 2e-6 * ref["abs_max"] if not math.isnan(ref["abs_max"]) else 0.0
+    near = any(not math.isnan(r_) and abs(s - r_) <= floor for r_ in (ref["std_unbiased"], ref["std_biased"]))
+    if not (tiny or near or _close(s, ref["std_unbiased"]) or _close(s, ref["std_biased"])):
         return f"std: recorded {s!r}, recomputed {ref['std_unbiased']!r} (unbiased) / {ref['std_biased']!r}"
     return None
 
@@ -252,12 +256,27 @@ def _track(plan: Dict[str, Any], spec: Dict[str, Any], original: Any, inputs: An
                 obs["interp"] = "unknown"
                 return interp
             orig_run_node = interp.run_node
+            orig_placeholder = interp.placeholder
+
+            def placeholder(target: Any, args: Any, kwargs: Any) -> Any:
+                v = orig_placeholder(target, args, kwargs)
+                obs["args"].append(v)  # the raw placeholder values of this run, in graph order
+                return v
+
+            interp.placeholder = placeholder  # type: ignore[method-assign]
 
             def run_node(n: Any) -> Any:
                 out = orig_run_node(n)
                 fl = isinstance(out, torch.Tensor) and out.is_floating_point()
                 obs["is_float"][n.name] = fl
                 if fl:
+                    # a tracking implementation hands a fresh tensor to the consumers of every
+                    # float node; if it hands on the very object of an earlier node, the hook
+                    # below cannot tell the two nodes' gradients apart (checked separately)
+                    prev = obs["handed_on"].get(id(out))
+                    if prev is not None and prev[1] is out:
+                        obs["aliased"].append((n.name, prev[0]))
+                    obs["handed_on"][id(out)] = (n.name, out)
                     obs["fwd"][n.name] = stats(out)
                     if out.requires_grad:
                         def hook(g: Any, name: str = n.name) -> None:
@@ -292,6 +311,7 @@ def _track(plan: Dict[str, Any], spec: Dict[str, Any], original: Any, inputs: An
         bwd = mode != "fwd"
         mask = op["mask"] if mode == "bwd_subset" else None
         obs["fwd"], obs["bwd"], obs["is_float"] = {}, {}, {}
+        obs["args"], obs["handed_on"], obs["aliased"] = [], {}, []
         g0 = obs["graphs"]
         try:
             got = tw.run(tracked, tracked, tw.clone_inputs(inputs[op["k"]]), op["gseed"], backward=bwd, out_mask=mask)
@@ -350,6 +370,35 @@ def _track(plan: Dict[str, Any], spec: Dict[str, Any], original: Any, inputs: An
                 dd = metrics_mismatch(m.bwd, ref_b)
                 if dd:
                     raise Violation("metrics", "backward_metrics_wrong", f"node {n.name}: {dd} {where}")
+        if bwd and obs.get("aliased") and mask is None:
+            # ground truth for aliased nodes from an independent second execution of the same
+            # graph with the same placeholder values (each node gets its own autograd edge there)
+            cap = make_capture()(obs["interp"].module)
+            outs2 = cap.run(*obs["args"])
+            outs2 = tuple(outs2) if isinstance(outs2, (tuple, list)) else (outs2,)
+            if len(outs2) == len(got["outs"]):
+                gs2 = tw.grad_seeds(outs2, op["gseed"])
+                sel2 = [(o, g) for o, g in zip(outs2, gs2) if g is not None]
+                leaves = [a for a in obs["args"] if isinstance(a, torch.Tensor) and a.is_floating_point() and a.requires_grad]
+                if sel2 and leaves:
+                    torch.autograd.grad([o for o, _ in sel2], leaves, [g for _, g in sel2], allow_unused=True)
+                by_name = {n.name: n for n in graph.nodes}
+                for name, other in obs["aliased"]:
+                    m = by_name[name].meta.get("metrics") if name in by_name else None
+                    if m is None:
+                        continue
+                    ref_b = cap.bwd.get(name)
+                    if (m.bwd is None) != (ref_b is None):
+                        raise Violation("metrics", "backward_metrics_presence",
+                                        f"node {name} (handed on the same tensor object as node {other}): recorded bwd "
+                                        f"{'present' if m.bwd is not None else 'None'}, gradient "
+                                        f"{'reached' if ref_b is not None else 'did not reach'} its consumers {where}")
+                    if ref_b is not None:
+                        dd = metrics_mismatch(m.bwd, ref_b)
+                        if dd:
+                            raise Violation("metrics", "backward_metrics_wrong",
+                                            f"node {name} (handed on the same tensor object as node {other}): {dd} {where}")
+                probe("aliased_nodes_checked_by_second_execution", len(obs["aliased"]))
         kinds.append(mode)
         probe("runs_compared")
         probe("float_nodes_compared", nfloat)
